@@ -382,8 +382,20 @@ def run(case):
                     stats["kill_unordered_skipped"] = stats.get("kill_unordered_skipped", 0) + 1
                     stats["kill_checked"] -= 1
                 elif not killed or dg != s["digest"]:
-                    raise RuntimeError(f"snapshot model disagrees with a real kill at effect {s['effect']} "
-                                       f"torn={s['torn']} (killed={killed}): {dg} vs {s['digest']}")
+                    la, lb = FS.tree_listing(s["dir"]), FS.tree_listing(rk["rundir"])
+                    diff = sorted(k_ for k_ in set(la) | set(lb) if la.get(k_) != lb.get(k_))
+                    # files of one replaced path are removed in set-iteration order, which depends on the
+                    # per-run absolute names: the two runs may have removed different members of the set
+                    parts = s["path"].split("/")
+                    being_deleted = ("/".join(parts[:2]) if s["kind"] == "remove" and len(parts) == 4
+                                     and parts[0] == "load" and parts[2] == "accepted" else None)
+                    if killed and being_deleted and diff and all(d.startswith(being_deleted + "/") for d in diff):
+                        stats["kill_unordered_skipped"] = stats.get("kill_unordered_skipped", 0) + 1
+                        stats["kill_checked"] -= 1
+                    else:
+                        raise RuntimeError(f"snapshot model disagrees with a real kill at effect {s['effect']} "
+                                           f"{s['kind']} {s['path']} torn={s['torn']} (killed={killed}): "
+                                           f"differing entries {diff[:12]}")
                 shutil.rmtree(os.path.dirname(rk["rundir"]), ignore_errors=True)
             second = rng.random() < case.get("second_p", 0.1)
             v, r2 = _restart_from(case, s, N, cum, start_cstep, second=second, stats=stats)
